@@ -81,7 +81,10 @@ fn eval_inner(state: &mut RunState, line: &'static str) -> Result<()> {
     }
 
     // Check labels
-    let mut asm = AsmLine::new(0, stmt, Span::dummy());
+    // Line number of the statement at the current PC, so that label offsets are relative to PC
+    // (PC is not incremented before the instruction is simulated)
+    let line = state.pc().wrapping_sub(state.orig());
+    let mut asm = AsmLine::new(line, stmt, Span::dummy());
     asm.backpatch()?;
 
     // Compile and execute
